@@ -419,6 +419,23 @@ def planOK (used : List BlobH) (idx : List PB) (packs : List (ID × Nat)) (pl : 
       if k.contains b then hasCopyIn idx packs pl.repack b
       else hasCopyOutside idx packs (pl.remove ++ pl.repack) b
 
+/-! ## C10 for a plan -/
+
+/-- the pack stays: neither deleted, nor repacked, nor missing -/
+def keptB (pl : Plan) (p : ID) : Bool := !(pl.remove.contains p) && !(pl.repack.contains p) && !(pl.ignore.contains p)
+
+/-- blob handles listed by the index after a completed prune: the entries of the packs that stay,
+    plus one entry for every repacked blob -/
+def afterBlobs (pl : Plan) (idx : List PB) : List BlobH :=
+  (idx.filter fun x => keptB pl x.pack).map (·.e.blob) ++ pl.keep.getD []
+
+/-- C10 (index part) for a plan: afterwards the index lists only used blobs, each exactly once,
+    and only for packs that are present -/
+def fullPlanOK (used : List BlobH) (idx : List PB) (packs : List (ID × Nat)) (pl : Plan) : Bool :=
+  (afterBlobs pl idx).all (fun b => used.contains b) &&
+  used.all (fun b => (afterBlobs pl idx).count b = 1) &&
+  idx.all (fun x => !(keptB pl x.pack) || packs.any (fun y => y.1 = x.pack))
+
 /-! ## Execution: the language of backend operation sequences -/
 
 /-- what `Execute` needs from the plan -/
